@@ -31,6 +31,7 @@ import (
 	pb "github.com/marekgalovic/anndb/protobuf"
 	"github.com/marekgalovic/anndb/storage"
 	"github.com/marekgalovic/anndb/utils"
+	"github.com/golang/protobuf/proto"
 	uuid "github.com/satori/go.uuid"
 )
 
@@ -587,6 +588,58 @@ func runClusterAcks(c *Ctx, r *Rng) {
 				}
 			}
 			c.Nontrivial("never-applied")
+		}
+		cl.Close()
+		c.End()
+	}
+	// (d) a write is waiting for its proposal (accepted, not applied: no quorum) when the catalogue takes the
+	// node out of the partition's replica set, which stops the group under the waiting writer: it must be
+	// told an error — nothing was applied — not success
+	if c.ArgInt("timeouts", 1) > 0 {
+		c.Begin("acks pending-write-while-replica-unloaded")
+		cl := newSimCluster(2)
+		dsId, err := cl.createDataset(1, 2, 1, 2, pb.Space_Euclidean)
+		if err != nil {
+			c.Note("create failed: %v", err)
+		} else {
+			d := cl.dataset(1, dsId)
+			lead := d.VerifPartitionAt(0).Raft().VerifStatus().Lead
+			pid := d.VerifPartitionAt(0).Id()
+			srv := cl.nodes[lead].dmSrv
+			cl.mu.Lock()
+			cl.raftDrop = func(from, to uint64) bool { return true }
+			cl.mu.Unlock()
+			long, cancel := context.WithTimeout(ctx, 30*time.Second)
+			done := make(chan error, 1)
+			t := time.Now()
+			go func() {
+				_, e := srv.Insert(long, &pb.InsertRequest{DatasetId: dsId.Bytes(), Id: rid(8).Bytes(), Value: amath.Vector{1, 1}})
+				done <- e
+			}()
+			time.Sleep(400 * time.Millisecond) // the proposal is out, the writer waits for its notification
+			ch, _ := proto.Marshal(&pb.DatasetPartitionNodesChange{Type: pb.DatasetPartitionNodesChangeType_DatasetPartitionNodesChangeRemoveNode, DatasetId: dsId.Bytes(), PartitionId: pid.Bytes(), NodeId: lead})
+			e, _ := proto.Marshal(&pb.DatasetManagerChange{Type: pb.DatasetManagerChangeType_DatasetManagerUpdatePartitionNodes, NotificationId: uuid.NewV4().Bytes(), Data: ch})
+			cl.nodes[1].group.Propose(ctx, e)
+			var werr error
+			select {
+			case werr = <-done:
+			case <-time.After(35 * time.Second):
+				werr = errors.New("(the writer did not return within 35 s)")
+			}
+			cancel()
+			stored := false
+			for _, id := range cl.ids {
+				if dd := cl.dataset(id, dsId); dd != nil {
+					if _, ge := dd.VerifPartitionAt(0).Index().Get(rid(8)); ge == nil {
+						stored = true
+					}
+				}
+			}
+			c.OpLocal("Insert on the leader (node %d) of a 2-replica partition cut off from its peer; 400 ms later the catalogue removes node %d from the partition's replicas -> %v after %s; item stored on some replica: %v", lead, lead, werr, time.Since(t).Round(100*time.Millisecond), stored)
+			if werr == nil && !stored {
+				c.Violate("C11", "C11/success-without-apply", "Insert returned success although its proposal was never committed or applied: the node was taken out of the partition's replica set while the writer was waiting, and the writer was released with success", c.History())
+			}
+			c.Nontrivial("pending-write-while-unloaded")
 		}
 		cl.Close()
 		c.End()
